@@ -31,11 +31,19 @@ func c102Batch() {
 		if len(f) != 2 {
 			continue
 		}
-		subseed, _ := strconv.ParseUint(f[1], 10, 64)
-		sub := &rng{s: subseed}
-		n := 2 + sub.intn(4)
-		steps := 50 + sub.intn(70)
-		in, obs, leaders := c101Gen(sub, n, steps, true)
+		var in, obs []uint64
+		var leaders int
+		if strings.HasPrefix(f[1], "D") {
+			// a directed script (minimised failures of earlier runs): they run first
+			k, _ := strconv.Atoi(f[1][1:])
+			in, obs, leaders = c101Run(c102directed[k], true)
+		} else {
+			subseed, _ := strconv.ParseUint(f[1], 10, 64)
+			sub := &rng{s: subseed}
+			n := 2 + sub.intn(4)
+			steps := 50 + sub.intn(70)
+			in, obs, leaders = c101Gen(sub, n, steps, true)
+		}
 		fmt.Fprintf(w, "%s %d %d", f[0], leaders, len(in))
 		for _, x := range in {
 			fmt.Fprintf(w, " %d", x)
@@ -50,13 +58,20 @@ func c102Batch() {
 }
 
 // run under C02, C03 and C05 (which = 0, 1, 2: different scripts for each)
+// directed scripts for component 102
+var c102directed = [][]uint64{
+	// F11 (a): leader 1's replicateTo(3, lastIndex = 1) uses a lastIndex read before its no-op was stored and is
+	// sent after the commit index reached 4; server 3 holds the stale tail 71,72 of its own earlier leadership
+	{3, 0, 0, 0, 1, 3, 2, 3, 2, 3, 3, 2, 7, 3, 71, 7, 3, 72, 1, 1, 1, 1, 2, 1, 2, 3, 1, 2, 7, 1, 81, 7, 1, 82, 8, 1, 2, 2, 4, 10, 0, 99, 12, 0, 14, 1, 9, 1, 3, 10, 1, 8, 1, 3, 2, 1, 10, 2},
+}
+
 func runC102(cw *caseWriter, tier string, seed uint64, which uint64) {
 	r := &rng{s: (seed*3+which)*15485863 + 3}
 	count := 100
 	if tier != "quick" {
 		count = 1500
 	}
-	evBatches(cw, "c102batch", "k", 102, count, r, "c102", func(tag string, in, obs []uint64) { c102monitor(cw, tag, in, obs) })
+	evBatchesD(cw, "c102batch", "k", 102, count, len(c102directed), r, "c102", func(tag string, in, obs []uint64) { c102monitor(cw, tag, in, obs) })
 }
 
 // property monitors on what the real servers did (C02 / C03 / C05), after every op
